@@ -435,6 +435,15 @@ func runSimCaseWith(t *rapid.T, o simOpts, setup func(*sim.World)) *sim.World {
 		}
 		w.Apply(sim.Action{K: "release"})
 	}
+	// laggard template for cases with a main-loop interrupt: the interrupted node is the last to get the COMMITs of height 1, so the
+	// others are ahead of it when its own commit (validation, proposal) is interrupted - e.g. by a sync to the tip
+	if it := cfg.Interrupt; !usedTemplate && it != nil && w.IsCorrect(it.Node) && rapid.IntRange(0, 2).Draw(t, "laggard?") == 0 {
+		usedTemplate = true
+		w.Apply(sim.Action{K: "hold", Hold: &sim.HoldRule{Types: 1 << sim.UC, To: 1 << uint(it.Node), From: 0xffff}})
+		w.Apply(sim.Action{K: "run", N: rapid.SampledFrom([]int{60, 200, 400}).Draw(t, "lag-run")})
+		w.Apply(sim.Action{K: "release"})
+		w.Apply(sim.Action{K: "run", N: rapid.SampledFrom([]int{20, 100}).Draw(t, "lag-run2")})
+	}
 	// lossy first phase with any leader, then assisted view changes (needs a Byzantine member to assist)
 	if !usedTemplate && len(cfg.Byz) > 0 && rapid.IntRange(0, 9).Draw(t, "lossy-phase?") < 2 {
 		usedTemplate = true
